@@ -115,6 +115,8 @@ structure Inst where
   attrs : Element.Store := []
   kwargs : Element.Store := []
   parent : Option Nat := none
+  owner : Option Nat := none   -- as a child: the parent whose container `parent_xsd_element` points into
+  shared : Bool := false       -- a child of this container also sits in another container (pointer aliasing)
 
 structure St where
   insts : HashMap Nat Inst := {}
@@ -125,8 +127,18 @@ def dedup (l : List Nat) : List Nat :=
 
 def usesMatcher (i : Inst) : Bool := i.chk && i.hasTree
 
+/-- `_unordered_children` of a non-tame checked instance, re-read from the arena after an operation -/
+def rekid (names : Msimple.Kids) (u : List Nat) : Msimple.Kids :=
+  u.map fun c => (c, ((names.find? (·.1 == c)).map (·.2)).getD 0)
+
+def eraseFirst (cid : Nat) : Msimple.Kids → Msimple.Kids
+  | [] => []
+  | c :: r => if c.1 == cid then r else c :: eraseFirst cid r
+
+def inArena (a : Mfull.Arena) (c : Nat) : Bool := a.nodes.any fun n => n.elems.contains c
+
 def obsSimple (i : Inst) : String :=
-  let ord := if usesMatcher i then Mslot.ordered i.p i.kids else i.kids
+  let ord := if usesMatcher i then Mslot.ordered i.p i.kids else if i.chk then [] else i.kids
   let req := if usesMatcher i then Mslot.required i.p i.kids else []
   -- on Tame templates the older, theorem-carrying model Msimple must say the same
   let cross := usesMatcher i && Msimple.isTame i.p &&
@@ -191,6 +203,7 @@ def childrenOf (i : Inst) : List Nat × Inst :=
     match r with
     | .ok l => (l, { i with full := a })
     | .error _ => ([], { i with full := a })
+  else if i.chk then ([], i)       -- checked, no container: get_children() is []
   else (Msimple.ids i.kids, i)
 
 inductive SErr | valueRequired | childrenRequired | attrRequired | internal (s : String) | matcher (s : String) | notElement
@@ -212,7 +225,8 @@ partial def finalChecks (st : St) (id : Nat) (ic : Bool) : Except SErr Unit × S
         else if e.kind == 0 && i.value == .none then (.error .valueRequired, i)
         else
           let (r1, i1) : Except SErr Unit × Inst :=
-            if i.hasTree then
+            if i.hasTree && ic && i.shared then (.error .notElement, i)
+            else if i.hasTree then
               let (r, a) := Mfull.run i.full (Mfull.getRequiredElementNames ic)
               let i' := { i with full := a }
               match r with
@@ -306,7 +320,7 @@ partial def deepCopy (st : St) (id : Nat) (off : Nat) : Except String Unit × St
                   match rf with
                   | .ok _ =>
                     let pi' := { pi with full := a', kids := pi.kids ++ [(c + off, nm)] }
-                    (.ok (), { s' with insts := (s'.insts.insert (id + off) pi').insert (c + off) { ci with parent := some (id + off) } })
+                    (.ok (), { s' with insts := (s'.insts.insert (id + off) pi').insert (c + off) { ci with parent := some (id + off), owner := some (id + off) } })
                   | .error er => (.error ("err:" ++ er.str), { s' with insts := s'.insts.insert (id + off) { pi with full := a' } })
                 else if pi.chk && !pi.hasTree then (.error "err:cannotHaveChildren", s')
                 else
@@ -314,10 +328,43 @@ partial def deepCopy (st : St) (id : Nat) (off : Nat) : Except String Unit × St
                   (.ok (), { s' with insts := (s'.insts.insert (id + off) pi').insert (c + off) { ci with parent := some (id + off) } })
               | _, _ => (.error "bad-inst", s')) (.ok (), st1)
 
+/-- ids met when walking the ordered children from `id` (with repetitions) -/
+partial def reach (st : St) (id : Nat) (fuel : Nat := 100000) : List Nat :=
+  match fuel, st.insts[id]? with
+  | 0, _ => [id, id]
+  | _, none => [id]
+  | f + 1, some i => id :: ((childrenOf i).1.flatMap fun c => reach st c (f / 2))
+
 def setParent (st : St) (cid : Nat) (p : Option Nat) : St :=
   match st.insts[cid]? with
   | some c => { st with insts := st.insts.insert cid { c with parent := p } }
   | none => st
+
+def setOwner (st : St) (cid : Nat) (o : Option Nat) : St :=
+  match st.insts[cid]? with
+  | some c => { st with insts := st.insts.insert cid { c with owner := o } }
+  | none => st
+
+def ownerOf (st : St) (cid : Nat) : Option Nat := (st.insts[cid]?).bind (·.owner)
+
+def markShared (st : St) (i : Nat) : St :=
+  match st.insts[i]? with
+  | some x => { st with insts := st.insts.insert i { x with shared := true } }
+  | none => st
+
+/-- may the per-instance arena of `i` speak for the child's single `parent_xsd_element` pointer?
+    `some a`: yes, with the arena `a` (pointer cleared when the real one is None); `none`: the pointer
+    leads into another element's container — outside the model envelope -/
+def arenaFor (st : St) (i : Nat) (inst : Inst) (cid : Nat) : Option Mfull.Arena :=
+  if inst.shared then none else
+  match st.insts[cid]? with
+  | none => some inst.full        -- bare matcher protocol: children are plain numbers
+  | some c =>
+    match c.owner with
+    | some j => if j == i then some inst.full else none
+    | none =>
+      if c.info.isNone then some inst.full else
+      some { inst.full with kids := inst.full.kids.insert cid { ((inst.full.kids[cid]?).getD { name := 0 }) with pxe := none } }
 
 def step (st : St) (line : String) : St × String :=
   match (line.trimAscii.toString.splitOn " ").filter (· ≠ "") with
@@ -441,6 +488,19 @@ def step (st : St) (line : String) : St × String :=
         | none => (st, "unmodelled")
       | none => (st, "bad-inst")
     | none => (st, "bad-op")
+  | ["setchk", i, b] =>
+    -- the xsd_check setter: nothing but the flag changes; both child lists stay as they are
+    match i.toNat? with
+    | some i =>
+      match st.insts[i]? with
+      | some inst =>
+        let nb := b == "1"
+        if nb == inst.chk then (st, "ok") else
+        let inst' := { inst with chk := nb, tame := false,
+                                 full := { inst.full with unordered := Msimple.ids inst.kids } }
+        ({ st with insts := st.insts.insert i inst' }, "ok")
+      | none => (st, "bad-inst")
+    | none => (st, "bad-op")
   | ["attrs", i] =>
     match i.toNat? with
     | some i =>
@@ -461,10 +521,20 @@ def step (st : St) (line : String) : St × String :=
         else if !inst.hasTree then (st, "err:cannotHaveChildren|err:cannotHaveChildren")
         else
           let fwd := parseFwd rest
+          -- the child still sits in a container (another element's or this one): aliasing from now on
+          let alias : Option Nat := match ownerOf st cid with
+            | some j => match st.insts[j]? with
+              | some pj => if inArena (if j == i then inst.full else pj.full) cid then some j else none
+              | none => none
+            | none => none
           let (rf, a') := Mfull.run inst.full (Mfull.elAddChild cid n fwd)
-          let inst := { inst with full := a' }
-          let st1 := if rf.toBool then setParent st cid (some i) else st
-          if !inst.tame then ({ st1 with insts := st1.insts.insert i inst }, both (resF rf) "-")
+          let inst := { inst with full := a', shared := inst.shared || (alias.isSome && rf.toBool) }
+          let st0 := match alias with
+            | some j => if rf.toBool && j != i then markShared st j else st
+            | none => st
+          let st1 := if rf.toBool then setOwner (setParent st0 cid (some i)) cid (some i) else st0
+          if !inst.tame then
+            ({ st1 with insts := st1.insts.insert i { inst with kids := rekid (inst.kids ++ [(cid, n)]) a'.unordered } }, both (resF rf) "-")
           else
             match addSimple inst.p inst.kids cid n fwd with
             | .ok k => ({ st1 with insts := st1.insts.insert i { inst with kids := k } }, both (resF rf) "ok")
@@ -477,15 +547,21 @@ def step (st : St) (line : String) : St × String :=
       match st.insts[i]? with
       | none => (st, "bad-inst")
       | some inst =>
+        if inst.chk && !inst.hasTree && !inst.kids.isEmpty then (st, "unmodelled") else
         if !usesMatcher inst then
           match Msimple.remove inst.kids cid with
-          | .ok k => (setParent { st with insts := st.insts.insert i { inst with kids := k } } cid none, "ok|ok")
+          | .ok _ =>
+            let k := eraseFirst cid inst.kids       -- list.remove: the first occurrence only
+            (setParent { st with insts := st.insts.insert i { inst with kids := k } } cid none, "ok|ok")
           | .error e => (st, both ("err:" ++ e.str) ("err:" ++ e.str))
         else
-          let (rf, a') := Mfull.run inst.full (Mfull.elRemove cid)
+          match (if inst.kids.any (·.1 == cid) then arenaFor st i inst cid else some inst.full) with
+          | none => (st, "unmodelled")
+          | some a0 =>
+          let (rf, a') := Mfull.run a0 (Mfull.elRemove cid)
           let inst := { inst with full := a' }
-          let st1 := if rf.toBool then setParent st cid none else st
-          if !inst.tame then ({ st1 with insts := st1.insts.insert i inst }, both (resF rf) "-")
+          let st1 := if rf.toBool then setOwner (setParent st cid none) cid none else st
+          if !inst.tame then ({ st1 with insts := st1.insts.insert i { inst with kids := rekid inst.kids a'.unordered } }, both (resF rf) "-")
           else match Msimple.remove inst.kids cid with
             | .ok k => ({ st1 with insts := st1.insts.insert i { inst with kids := k } }, both (resF rf) "ok")
             | .error e => ({ st1 with insts := st1.insts.insert i inst }, both (resF rf) ("err:" ++ e.str))
@@ -496,6 +572,7 @@ def step (st : St) (line : String) : St × String :=
       match st.insts[i]? with
       | none => (st, "bad-inst")
       | some inst =>
+        if inst.chk && !inst.hasTree then (st, "err:notAChild|err:notAChild") else
         if !usesMatcher inst then
           match inst.kids.find? (·.1 == old) with
           | none => (st, "err:notAChild|err:notAChild")
@@ -503,10 +580,13 @@ def step (st : St) (line : String) : St × String :=
             let inst' := { inst with kids := Msimple.replFirst old (new, n) inst.kids }
             (setParent (setParent { st with insts := st.insts.insert i inst' } new (some i)) old none, "ok|ok")
         else
-          let (rf, a') := Mfull.run inst.full (Mfull.elReplace old new n)
+          match (if inArena inst.full old then arenaFor st i inst old else some inst.full) with
+          | none => (st, "unmodelled")
+          | some a0 =>
+          let (rf, a') := Mfull.run a0 (Mfull.elReplace old new n)
           let inst := { inst with full := a' }
-          let st1 := if rf.toBool then setParent (setParent st new (some i)) old none else st
-          if !inst.tame then ({ st1 with insts := st1.insts.insert i inst }, both (resF rf) "-")
+          let st1 := if rf.toBool then setOwner (setParent (setParent st new (some i)) old none) new (ownerOf st old) else st
+          if !inst.tame then ({ st1 with insts := st1.insts.insert i { inst with kids := rekid (inst.kids ++ [(new, n)]) a'.unordered } }, both (resF rf) "-")
           else match Msimple.replace inst.kids old new n with
             | .ok k => ({ st1 with insts := st1.insts.insert i { inst with kids := k } }, both (resF rf) "ok")
             | .error e => ({ st1 with insts := st1.insts.insert i inst }, both (resF rf) ("err:" ++ e.str))
@@ -577,6 +657,10 @@ def step (st : St) (line : String) : St × String :=
           | none => (st2, "unmodelled")
     | none => (st, "bad-op")
   | ["copy", i, off] =>
+    -- an instance reachable twice is copied twice by the library; the id scheme of this protocol cannot name both
+    if (match i.toNat? with
+        | some i => let r := reach st i; r.length != r.eraseDups.length
+        | none => false) then (st, "unmodelled") else
     match i.toNat?, off.toNat? with
     | some i, some off =>
       let (r, st') := deepCopy st i off
@@ -626,7 +710,7 @@ def step (st : St) (line : String) : St × String :=
 def strIndex (s : String) : Option Nat := Gen.strs.toList.idxOf? s
 
 /-- children of an instance in insertion order, whatever bookkeeping it uses -/
-def unorderedOf (i : Inst) : List Nat := if usesMatcher i then i.full.unordered else Msimple.ids i.kids
+def unorderedOf (i : Inst) : List Nat := Msimple.ids i.kids
 
 def firstPart (s : String) : String := (s.splitOn "|").headD s
 
@@ -636,6 +720,8 @@ def stepDot (st : St) (i : Nat) (key : String) (newId : Nat) (arg : String) : St
   match st.insts[i]? with
   | none => (st, "bad-inst")
   | some inst =>
+    -- the class is looked up with eval(): a key that is not a plain identifier is outside the envelope
+    if key.toList.any (fun c => !(c.isAlphanum || c == '_')) then (st, "unmodelled") else
     let childName := Element.shortcutChildName key
     let possible := inst.hasTree && (dedup inst.p.leaves).any fun n => strOf n == childName
     let clsName := "C:" ++ Element.shortcutClassName key
